@@ -161,7 +161,7 @@ static void run_power(Json& js, vh::Rng& rng, long budget) {
 static void run_cohere(Json& js, vh::Rng& rng, long budget) {
     for (long t = 0; t < budget; ++t) {
         const int nfft = 1 << (int)rng.range(3, 10);
-        const int winlen = (int)rng.range(std::max(2, nfft / 4), nfft);
+        const int winlen = (int)rng.range(std::max(3, nfft / 4), nfft);
         const int noverlap = (int)rng.range(0, winlen - 1);
         const int N = winlen + (int)rng.range(0, 30) * (winlen - noverlap);
         const int kind = (int)rng.range(0, 3);
